@@ -26,13 +26,17 @@ TEXT = {
     "C10": "current_local_parent() after every step equals the abstract scope stack; closing a scope restores the context; local collectors shadow; inert without a local parent.",
     "C11": "from_span / current_local_parent return the right trace, span and flag; a root made from such a context (directly or through the traceparent codec) is delivered under that span.",
     "C18": "Every delivered record's begin time lies in the wall-clock bracket of the call that created the span and its duration between the monotonic brackets of the creating and finishing calls (harness-side clock readings around each call, stated tolerances); local spans nest inside their parents, siblings do not overlap, events lie inside their span; elapsed() within its bracket.  Decided by trace validation only (the model has no clock): level exploration.",
+    "C12": "W3C.tla is an executable specification of the traceparent decoder over sequences of characters; TLC enumerates the product of field classes (13 119 decode classes, 72 id classes), the harness concretises each with seeded random digits and adds free-form text; the real functions run under catch_unwind and every result is validated by TLC against the module (panic, accepted-malformed, rejected-valid, wrong value; 55-character form, round trip, Display/FromStr/serde). Level exploration: the input space is sampled per class, not decided.",
+    "C19": "Reporters.tla states the three mappings structurally (ids as hex strings, numbers as digit sequences); TLC enumerates record classes (id byte patterns incl. top bit set, string classes, duration classes, property / event counts, duplicate keys) and batch sizes 0..200; the real reporters run against a loopback UDP socket, a loopback HTTP listener and a capturing SpanExporter; the bytes are decoded by independent Thrift-compact and MessagePack decoders (a decoding error is the well-formedness verdict) and validated by TLC. Level exploration.",
+    "C20": "Jaeger.tla is a PlusCal transcription of try_report over an abstract size function; TLC checks termination (and a decreasing variant), datagram size and exactly-once-in-order for every size vector up to the bound over {tiny, third, half, just below, just at, oversize}; every vector (and random batches of up to 2000 spans) is then run through the real reporter with records padded to the exact singleton sizes 7999 / 8000, and the received datagrams are validated by TLC against the property's conjuncts.",
     "C13": "in_span(span): the span is the local parent during every poll and the previous context is back afterwards (context queries inside and after polls); the span finishes exactly at completion or drop; what the final poll recorded is part of the trace (cancelable mode: same batch). enter_on_poll: one local span per poll. All poll sequences up to the bound, with migration between two threads, cycles at every push incl. those inside the final poll.",
     "C14": "The same for fastrace-futures' Stream and Sink adapters (poll_next / poll_ready / start_send / poll_flush / poll_close), driven through the real adapters around a scripted inner stream / sink.",
     "C16": "Built without the `enable` feature (second harness build) every call is inert: no reporter call, no thread from set_reporter, no context, no closure invoked; with the feature on the same for spans that are not recording (no reporter installed, no-op parents, no local parent).",
     "C17": "A collected local-span set pushed to several parents yields identical subtrees under each parent.",
 }
 
-EXPLORATION = {"C18"}
+EXPLORATION = {"C18", "C12", "C19"}
+SIDE_SPEC = {"C12": "W3C.tla", "C19": "Reporters.tla", "C20": "Jaeger.tla (PlusCal, model checked)"}
 REF = {p: "DESIGN.md section 5, " + p for p in TEXT}
 
 
@@ -47,11 +51,16 @@ def main():
                 thorough_cmd="./check %s --tier thorough" % pid,
                 evidence_file="evidence/%s.json" % pid,
                 replay_cmd_template="./check %s --replay {path}" % pid,
-                engine="fastrace-tla",
-                level_claimed=dict(category="model_checking" if (pid in PLAN and pid not in EXPLORATION) else "exploration", text=TEXT.get(pid, ""), design_ref=REF.get(pid, "DESIGN.md section 5")),
+                level_claimed=dict(category="exploration" if pid in EXPLORATION else "model_checking", text=TEXT.get(pid, ""), design_ref=REF.get(pid, "DESIGN.md section 5")),
                 level_note=MC_NOTE,
-                technique="TLA+ model checking (TLC) of Fastrace.tla + steered replay on the real code + TLC trace validation (TraceAbs.tla)",
+                technique=("TLA+ side specification (%s) as case enumerator and oracle: TLC-generated cases run on the real code, observations validated by TLC (TraceSide.tla)" % SIDE_SPEC[pid]) if pid in SIDE_SPEC else "TLA+ model checking (TLC) of Fastrace.tla + steered replay on the real code + TLC trace validation (TraceAbs.tla)",
+                engine=None,
             ))
+    for c in checks:
+        c["engine"] = "fastrace-side" if c["property_id"] in SIDE_SPEC else "fastrace-tla"
+        if c["property_id"] in SIDE_SPEC:
+            c["level_note"] = ("The TLA+ module is the oracle and the exhaustive class enumerator; the Rust code is only observed, not proved. Trusted: the side harness's "
+                               "concretisation of classes and its independent decoders (sideharness/src/wire.rs).")
     claimed = {c["property_id"] for c in checks}
     na = [dict(property_id=p["id"], reason="check not built yet in this round (see DESIGN.md section 10); not decided by another technique")
           for p in props if p["id"] not in claimed]
@@ -64,8 +73,10 @@ def main():
                    enable="rustc cfg: RUSTFLAGS='--cfg fastrace_verif' (set in harness/.cargo/config.toml); the harness crate path-depends on /repo/fastrace with feature `enable`",
                    baseline_off_cmd="cd /repo && cargo test --workspace --no-fail-fast --offline",
                    source_commits=hook_commits, add_only=True),
-        engines=[dict(name="fastrace-tla", path="spec/Fastrace.tla, spec/Abs.tla, spec/TraceAbs.tla, harness/, lib/",
-                      serves_properties=sorted(claimed),
+        engines=[dict(name="fastrace-side", path="spec/side/*.tla, sideharness/, lib/side.py", serves_properties=sorted(SIDE_SPEC),
+                      kind_free_text="TLA+ side specifications: TLC enumerates cases / model checks the transcribed algorithm, the real code runs the cases, TLC validates the observations"),
+                 dict(name="fastrace-tla", path="spec/Fastrace.tla, spec/Abs.tla, spec/TraceAbs.tla, harness/, lib/",
+                      serves_properties=sorted(claimed - set(SIDE_SPEC)),
                       kind_free_text="explicit TLA+ specification checked with TLC; conformance by steered replay of TLC behaviours and TLC trace validation")],
         checks=checks,
         not_applicable=na,
